@@ -145,6 +145,8 @@ def denote(obj):
             raise DenoteError(f"ttensor core has {core.ndim} modes but {len(fm)} factors")
         out = core.astype(np.result_type(core.dtype, np.float64))
         for n, f in enumerate(fm):
+            if hasattr(f, "toarray") and hasattr(f, "tocoo"):
+                f = np.asarray(f.toarray())          # a SciPy sparse factor matrix (the constructor accepts them) denotes its dense form
             if not isinstance(f, np.ndarray) or f.ndim != 2 or f.shape[1] != out.shape[n]:
                 raise DenoteError(f"ttensor factor {n} shape {getattr(f, 'shape', None)} vs core {core.shape}")
             out = np.moveaxis(np.tensordot(f, out, axes=(1, n)), 0, n)
